@@ -108,8 +108,25 @@ func (g *pg) stmt(depth int) gen.Val {
 		g.stats["defmacro"]++
 		// the expansion mentions an UNQUALIFIED name: it resolves where the
 		// expansion is evaluated
+		if g.n(0, 1, "expansion-time") == 0 {
+			return gen.L(gen.S("defmacro"), gen.S(g.sym()), gen.L(gen.S("x")),
+				gen.L(gen.S("quasiquote"), gen.L(gen.S("list"), gen.L(gen.S("unquote"), gen.S("x")), gen.S(g.sym()))))
+		}
+		// the macro BODY works at expansion time: it reads an unqualified name,
+		// calls a helper or binds a global -- all in the macro's defining
+		// package, whichever package the call is expanded from
+		g.stats["defmacro-expansion-time-work"]++
+		var work gen.Val
+		switch g.n(0, 2, "work") {
+		case 0:
+			work = gen.S(g.sym())
+		case 1:
+			work = gen.L(gen.S(g.sym()), gen.I(int64(g.n(0, 3, "arg"))))
+		default:
+			work = gen.Call("set", gen.QS(g.sym()), g.newVal())
+		}
 		return gen.L(gen.S("defmacro"), gen.S(g.sym()), gen.L(gen.S("x")),
-			gen.L(gen.S("quasiquote"), gen.L(gen.S("list"), gen.L(gen.S("unquote"), gen.S("x")), gen.S(g.sym()))))
+			gen.L(gen.S("quasiquote"), gen.L(gen.S("list"), gen.L(gen.S("unquote"), gen.S("x")), gen.L(gen.S("quote"), gen.L(gen.S("unquote"), work)), gen.S(g.sym()))))
 	case 10, 11:
 		g.stats["use-package"]++
 		g.seenUse = true
@@ -201,6 +218,39 @@ func genCase() *rapid.Generator[Case] {
 		g := &pg{t: t, stats: map[string]int{}}
 		n := rapid.IntRange(3, 22).Draw(t, "nstmts")
 		var forms []gen.Val
+		if rapid.IntRange(0, 3).Draw(t, "scripted") == 0 {
+			// a directed opening: Q uses P, P changes, Q uses P again -- the
+			// second use-package copies the bindings as they are THEN
+			g.stats["scripted-reuse"]++
+			P := g.pkg()
+			Q := g.pkg()
+			sym, sym2 := g.sym(), g.sym()
+			add := func(v gen.Val) { forms = append(forms, g.wrap(v)) }
+			add(gen.Call("in-package", gen.QS(P)))
+			add(gen.Call("export", gen.QS(sym)))
+			add(gen.Call("set", gen.QS(sym), g.newVal()))
+			add(gen.Call("in-package", gen.QS(Q)))
+			add(gen.Call("use-package", gen.QS(P)))
+			add(gen.S(sym))
+			add(gen.Call("in-package", gen.QS(P)))
+			switch g.n(0, 2, "change") {
+			case 0:
+				add(gen.Call("set", gen.QS(sym), g.newVal()))
+			case 1:
+				add(gen.L(gen.S("defun"), gen.S(sym), gen.L(gen.S("x")), g.body()))
+			default:
+				add(gen.Call("set", gen.QS(sym2), g.newVal()))
+				add(gen.Call("export", gen.QS(sym2)))
+			}
+			add(gen.Call("in-package", gen.QS(Q)))
+			if g.n(0, 1, "local-rebind") == 0 {
+				add(gen.Call("set", gen.QS(sym), g.newVal()))
+			}
+			add(gen.Call("use-package", gen.QS(P)))
+			add(gen.Call("list", gen.S(sym), gen.S(Q+":"+sym), gen.S(P+":"+sym)))
+			add(gen.S(sym2))
+			g.seenUse = true
+		}
 		for i := 0; i < n; i++ {
 			forms = append(forms, g.wrap(g.stmt(2)))
 		}
